@@ -92,6 +92,10 @@ def check_history(case, stats):
     own = case.get("own_matcher", True) or dflt != "en"
     matcher = gh.TokenMatcher(dflt) if own else None
     compiler = gh.Compiler()
+    if matcher is not None and case.get("dirty_matcher"):
+        # the matcher has been used directly (outside parse) before the history starts
+        for pre_line, meth in (("# language: no", "match_Language"), ("  ```", "match_DocStringSeparator"), ("x", "match_Other")):
+            getattr(matcher, meth)(gh.Token(gh.GherkinLine(pre_line + "\n", 1), {"line": 1}))
     from gherkin.dialect import DIALECTS as LIVE
     dialects_before = copy.deepcopy(LIVE) if case.get("check_dialects") else None
     perturbed = False
@@ -153,7 +157,7 @@ def unit_pool(a):
                         if k == 3 and a["sample"] and (n // a["nshards"]) % a["sample"] != a["seed"] % a["sample"]:
                             continue
                         yield {"sub": "history", "default": dflt, "names": list(hist), "items": [[POOL[h], s] for h, s in zip(hist, stops)], "check_dialects": n % 50 == 0,
-                               "own_matcher": not (dflt == "en" and n % 2)}
+                               "own_matcher": not (dflt == "en" and n % 2), "dirty_matcher": n % 3 == 0}
     sweep(stats, gen(), check_history)
     return stats
 
